@@ -15,10 +15,10 @@ func init() {
 		ID:    "C20",
 		Level: "exploration",
 		Rule: "Message types are built at run time (proto2 and proto3 file: 15 scalar kinds, enum, nested and recursive message; singular, repeated, map<K,*> for the 12 key kinds, map<string,V> for every value kind; oneof, proto3 optional, proto2 defaults and extensions). " +
-			"(1) Boundary matrix: file x kind x position (attr, kwarg, dict argument, set_field, nested dict, whole list/map, list literal, setindex, append, map value/key by setkey/assignment/kwarg, map lookup) x route (Starlark source / direct Go API) x 76 pool values (min-1, min, max, max+1, 2^64, 2^200, None, bool, floats, str incl. invalid UTF-8, bytes, containers, messages, enum values, descriptors, views); " +
+			"(1) Boundary matrix: file x kind x position (attr, kwarg, dict argument, set_field, nested dict, whole list/map, list literal, setindex, append, map value/key by setkey/assignment/kwarg, map lookup) x route (Starlark source / direct Go API) x 93 pool values (min-1, min, max, max+1, 2^64, 2^200, None, bool, floats, str incl. invalid UTF-8, bytes, containers, messages, enum values, descriptors, views); " +
 			"each cell is judged against a per-kind range table (protobuf language guide): accept/reject verdict, stored content (proto.Equal with an independently built message), read-back through the wrapper, binary and text round trip, the same operation on the frozen message, reflective type/range walk; a cell is distinct by (file, kind, position, route, value). " +
-			"(2) View assignment m.r = m.r / o.r = m.r for every kind; decoded messages with undeclared enum numbers; corrupted encodings; extension fields; a cyclic message in a helper process. " +
-			"(3) Random histories (4..12 operations over <= 4 message variables and stored repeated/map views: construct, scalar/sub/repeated/map assignment, aliasing o.f = m.f, shallow copy M(m), element operations, stored views, iterate-and-mutate, re-encode, Freeze() directly or by finishing a module) with a snapshot-before/after oracle for every frozen message and a shadow model (storage-node identity, provenance of aliasing edges, flag groups) that names the shape; a history is distinct by its operation-kind sequence and counts as non-trivial when a mutating operation follows a freeze.",
+			"(2) View assignment m.r = m.r / o.r = m.r for every kind; live repeated/map views of a different enum/message type or scalar kind as pool values at whole-field positions (attr, kwarg, set_field); element wrappers captured in plain Starlark containers (dict(map), dict.update, .items(), list/tuple/sorted/reversed(repeated), comprehensions, loop variables, Go Items/Entries/Elements/Get) and mutated after Freeze(); decoded messages with undeclared enum numbers; corrupted encodings; extension fields; a cyclic message in a helper process. " +
+			"(3) Random histories (4..12 operations over <= 4 message variables and stored repeated/map views: construct, scalar/sub/repeated/map assignment, aliasing o.f = m.f, shallow copy M(m), element operations, stored views, plain-container captures and mutation through their elements, cross-type view assignment, iterate-and-mutate, re-encode, Freeze() directly or by finishing a module) with a snapshot-before/after oracle for every frozen message and a shadow model (storage-node identity, provenance of aliasing edges, flag groups) that names the shape; a history is distinct by its operation-kind sequence and counts as non-trivial when a mutating operation follows a freeze.",
 		Assumptions: []string{
 			"google.golang.org/protobuf (dynamicpb, proto.Equal, deterministic Marshal, protodesc) is the trusted reference for storage identity, equality and encoding",
 			"per-kind ranges are those of the protobuf language guide (int32/sint32/sfixed32 -2^31..2^31-1, uint32/fixed32 0..2^32-1, int64/sint64/sfixed64 -2^63..2^63-1, uint64/fixed64 0..2^64-1); bool accepts only bool; enum accepts a declared number, a declared name or a value of the same enum; message accepts a message of the same descriptor or a dict of its fields; None unsets a singular/repeated/map field and is rejected as an element, key or map value (lib/proto setField doc)",
@@ -88,6 +88,13 @@ func run(c *driver.Ctx) {
 		for variant := 0; variant < 5; variant++ {
 			if c.Take() {
 				e.unknownEnumCase(fs, variant)
+			}
+		}
+	}
+	for _, fs := range e.schema.files {
+		for fi := range plainForms {
+			if c.Take() {
+				e.plainViewCase(fs, &plainForms[fi])
 			}
 		}
 	}
